@@ -11,12 +11,13 @@ Open Scope nat_scope.
    the final state
      - length (tv y) = length (pop y) = n,
      - for every slot i: position = clip(value of tree i) and fitness = f(position),
-     - the best agent is consistent with the detached best-tree copy, or is still the initial placeholder. *)
+     - the best agent is consistent with the detached best-tree copy, or the pair (best agent, best-tree value) is still
+       the one the task started with. *)
 Theorem C12_ir (p : stmt) lbs ubs f n_iter okc n o x0 x' evs o' :
   c12_check p = true ->
   length (tv x0) = n -> length (pop x0) = n ->
   run lbs ubs f (fun x => x) n_iter okc p o x0 = Some (x', evs, o') ->
-  c12_claim lbs ubs f n (best x0) x' /\ Forall (ev_claim12 lbs ubs f n (best x0)) evs.
+  c12_claim lbs ubs f n (best x0) (btv x0) x' /\ Forall (ev_claim12 lbs ubs f n (best x0) (btv x0)) evs.
 Proof. exact (c12_main p lbs ubs f n_iter okc n o x0 x' evs o'). Qed.
 
 (* the regenerated GP program passes *)
@@ -26,29 +27,42 @@ Proof. vm_compute. reflexivity. Qed.
 Theorem C12_GP lbs ubs f n_iter okc n o x0 x' evs o' :
   length (tv x0) = n -> length (pop x0) = n ->
   run lbs ubs f (fun x => x) n_iter okc prog_GP o x0 = Some (x', evs, o') ->
-  c12_claim lbs ubs f n (best x0) x' /\ Forall (ev_claim12 lbs ubs f n (best x0)) evs.
+  c12_claim lbs ubs f n (best x0) (btv x0) x' /\ Forall (ev_claim12 lbs ubs f n (best x0) (btv x0)) evs.
 Proof. exact (c12_main prog_GP lbs ubs f n_iter okc n o x0 x' evs o' C12_GP_check). Qed.
 
 (* the claim without abbreviations *)
-Theorem C12_claim_spelled lbs ubs f n B0 y :
-  c12_claim lbs ubs f n B0 y <->
+Theorem C12_claim_spelled lbs ubs f n B0 BT0 y :
+  c12_claim lbs ubs f n B0 BT0 y <->
   length (tv y) = n /\ length (pop y) = n /\
   (forall i ag c, nth_error (pop y) i = Some ag -> nth_error (tv y) i = Some c ->
      apos ag = clipc lbs ubs c /\ afit ag = f (apos ag)) /\
-  ((apos (best y) = clipc lbs ubs (btv y) /\ afit (best y) = f (apos (best y))) \/ best y = B0).
+  ((apos (best y) = clipc lbs ubs (btv y) /\ afit (best y) = f (apos (best y))) \/ (best y = B0 /\ btv y = BT0)).
 Proof. reflexivity. Qed.
 
 (* every slot below n has an agent and a tree, and they agree *)
-Theorem C12_every_slot lbs ubs f n B0 y : c12_claim lbs ubs f n B0 y ->
+Theorem C12_every_slot lbs ubs f n B0 BT0 y : c12_claim lbs ubs f n B0 BT0 y ->
   forall i, i < n -> exists ag c, nth_error (pop y) i = Some ag /\ nth_error (tv y) i = Some c /\
                                   apos ag = clipc lbs ubs c /\ afit ag = f (apos ag).
-Proof. exact (c12_claim_slots lbs ubs f n B0 y). Qed.
+Proof. exact (c12_claim_slots lbs ubs f n B0 BT0 y). Qed.
 
 (* once the best agent has been updated (fitness numerically below the initial sentinel) it agrees with the best tree *)
-Theorem C12_best_updated lbs ubs f n B0 y : c12_claim lbs ubs f n B0 y ->
+Theorem C12_best_updated lbs ubs f n B0 BT0 y : c12_claim lbs ubs f n B0 BT0 y ->
   klt (afit (best y)) (afit B0) = true ->
   apos (best y) = clipc lbs ubs (btv y) /\ afit (best y) = f (apos (best y)).
-Proof. exact (c12_claim_sentinel lbs ubs f n B0 y). Qed.
+Proof. exact (c12_claim_sentinel lbs ubs f n B0 BT0 y). Qed.
+
+(* histories of tasks on one tree space: for every finite sequence of programs passing the check (GP after GP ...), started
+   from a state whose (best agent, best-tree value) pair is consistent or the untouched pair (B0, BT0) of the fresh space, the
+   claim -- with that ORIGINAL pair -- holds at every record of every task, and the end state is again such a start state *)
+Theorem C12_task_histories (ps : list stmt) lbs ubs f n_iter okc n B0 BT0 x0 evs x' :
+  Forall (fun p => c12_check p = true) ps ->
+  length (tv x0) = n -> length (pop x0) = n ->
+  ((apos (best x0) = clipc lbs ubs (btv x0) /\ afit (best x0) = f (apos (best x0))) \/ (best x0 = B0 /\ btv x0 = BT0)) ->
+  tasks12 lbs ubs f n_iter okc ps x0 evs x' ->
+  Forall (ev_claim12 lbs ubs f n B0 BT0) evs /\
+  length (tv x') = n /\ length (pop x') = n /\
+  ((apos (best x') = clipc lbs ubs (btv x') /\ afit (best x') = f (apos (best x'))) \/ (best x' = B0 /\ btv x' = BT0)).
+Proof. exact (c12_tasks ps lbs ubs f n_iter okc n B0 BT0 x0 evs x'). Qed.
 
 (* ---------------------------------------------------------------- sanity: what the check rejects / accepts *)
 Definition gp_upd : stmt :=
@@ -111,7 +125,7 @@ Definition o_gp : list answer :=
 Example gp_runs : exists x' evs o',
   run [(-10)%Z] [10%Z] f_ex (fun x => x) 1 okc_any prog_GP o_gp x0_ex = Some (x', evs, o') /\
   map apos (pop x') = [[[Some (-10)%Z]]; [[Some 3%Z]]] /\ best x' = {| apos := [[Some (-10)%Z]]; aid := 10; afit := (-10)%Z |} /\
-  btv x' = [[Some (-30)%Z]] /\ c12_claim [(-10)%Z] [10%Z] f_ex 2 (best x0_ex) x'.
+  btv x' = [[Some (-30)%Z]] /\ c12_claim [(-10)%Z] [10%Z] f_ex 2 (best x0_ex) (btv x0_ex) x'.
 Proof.
   destruct (run [(-10)%Z] [10%Z] f_ex (fun x => x) 1 okc_any prog_GP o_gp x0_ex) as [[[x' evs] o']|] eqn:E;
     [|vm_compute in E; discriminate].
@@ -123,7 +137,7 @@ Qed.
 (* the variant without `Clip Cur` really violates the claim: tree 0 has value 50 outside the box [-10,10] *)
 Example c12_noclip_refuted : exists x' evs o',
   run [(-10)%Z] [10%Z] f_ex (fun x => x) 0 okc_any (gp_prog sweep_noclip Skip) [] x0_ex = Some (x', evs, o') /\
-  ~ c12_claim [(-10)%Z] [10%Z] f_ex 2 (best x0_ex) x'.
+  ~ c12_claim [(-10)%Z] [10%Z] f_ex 2 (best x0_ex) (btv x0_ex) x'.
 Proof.
   eexists _, _, _. split; [vm_compute; reflexivity|].
   intros (_ & _ & H & _). specialize (H 0 _ _ eq_refl eq_refl) as [H _]. vm_compute in H. discriminate.
